@@ -64,12 +64,16 @@ var funcSpecs = []funcSpec{
 	{rel: "plugin", name: "EncodeRecipient"},
 	{rel: "plugin", name: "ParseRecipient"},
 	{rel: "", name: "slicesEqual"},
-	{rel: "", name: "ParseIdentities", abstract: []string{"ParseX25519Identity"}, opaque: map[string]string{"Identity": "κ", "X25519Identity": "κ"}, errInts: true},
-	{rel: "", name: "ParseRecipients", abstract: []string{"ParseX25519Recipient"}, opaque: map[string]string{"Recipient": "κ", "X25519Recipient": "κ"}, errInts: true},
+	{rel: "", name: "multiUnwrap", abstract: []string{"errors.Is"}},
+	{rel: "", name: "(*ScryptIdentity).unwrap", abstract: []string{"format.DecodeString", "scrypt.Key", "age.aeadDecrypt"}},
+	{rel: "", name: "(*ScryptIdentity).Unwrap", abstract: []string{"errors.Is"}},
+	{rel: "", name: "ParseIdentities", abstract: []string{"age.ParseX25519Identity"}, opaque: map[string]string{"Identity": "κ", "X25519Identity": "κ"}, errInts: true},
+	{rel: "", name: "ParseRecipients", abstract: []string{"age.ParseX25519Recipient"}, opaque: map[string]string{"Recipient": "κ", "X25519Recipient": "κ"}, errInts: true},
 }
 
-// curOpaque: the opaque-type table of the function being translated
+// curOpaque: the opaque-type table of the function being translated; curFtr: the translation in progress
 var curOpaque map[string]string
+var curFtr *ftr
 
 // stdlibPure: out-of-module functions with a total model in GoSem.lean.
 // value = Lean function; args are passed in order.
@@ -88,13 +92,15 @@ var stdlibPure = map[string]string{
 type unsupported struct{ msg string }
 
 type ftr struct {
-	pr    *Prog
-	specs map[*types.Func]*funcSpec
-	done  map[*types.Func]bool
-	busy  map[*types.Func]bool
-	out   strings.Builder // finished definitions, dependency order
-	globs map[types.Object]string
-	names []string // Lean names of translated functions, for facts.json
+	pr      *Prog
+	specs   map[*types.Func]*funcSpec
+	done    map[*types.Func]bool
+	busy    map[*types.Func]bool
+	out     strings.Builder // finished definitions, dependency order
+	globs   map[types.Object]string
+	names   []string                      // Lean names of translated functions, for facts.json
+	absOf   map[*types.Func][]*types.Func // abstract callees of each translated function (they are its leading parameters)
+	structs map[*types.Named]string       // struct types emitted as Lean structures
 }
 
 // per-function state
@@ -198,6 +204,40 @@ func leanTypeOf(t types.Type) (string, bool) {
 		if nt.Obj().Pkg() != nil && nt.Obj().Pkg().Path() == "strings" && nt.Obj().Name() == "Builder" {
 			return "(List UInt8)", true
 		}
+	}
+	{
+		bt := t
+		if p, ok := bt.(*types.Pointer); ok {
+			bt = p.Elem()
+		}
+		if nt, ok := bt.(*types.Named); ok {
+			if _, isStruct := nt.Underlying().(*types.Struct); isStruct && curFtr != nil {
+				if n, ok := curFtr.structType(nt); ok {
+					return n, true
+				}
+			}
+		}
+	}
+	if sig, ok := t.Underlying().(*types.Signature); ok && !sig.Variadic() {
+		var ps, rs []string
+		for i := 0; i < sig.Params().Len(); i++ {
+			p, ok := leanTypeOf(sig.Params().At(i).Type())
+			if !ok {
+				return "", false
+			}
+			ps = append(ps, p)
+		}
+		for i := 0; i < sig.Results().Len(); i++ {
+			r, ok := leanTypeOf(sig.Results().At(i).Type())
+			if !ok {
+				return "", false
+			}
+			rs = append(rs, r)
+		}
+		if len(ps) == 0 {
+			return "(Go.M " + tupleType(rs) + ")", true
+		}
+		return "(" + strings.Join(ps, " → ") + " → Go.M " + tupleType(rs) + ")", true
 	}
 	switch u := t.Underlying().(type) {
 	case *types.Basic:
@@ -515,6 +555,28 @@ func (c *fctx) expr(e ast.Expr) string {
 		}
 		return lit
 	case *ast.SelectorExpr:
+		if sel := c.info().Selections[x]; sel != nil {
+			switch sel.Kind() {
+			case types.FieldVal:
+				if _, ok := leanTypeOf(sel.Recv()); ok && len(sel.Index()) == 1 {
+					return "(" + c.expr(x.X) + ")." + fieldName(sel.Obj().Name())
+				}
+			case types.MethodVal:
+				// a bound method value `x.m` (not called): the translated method applied to its abstract parameters and receiver
+				if m, ok := sel.Obj().(*types.Func); ok {
+					if fi := c.t.pr.Funcs[m]; fi != nil {
+						name := c.t.translate(fi, c, x)
+						parts := []string{name}
+						for _, a := range c.t.absOf[m] {
+							c.useAbstract(a)
+							parts = append(parts, absName(a))
+						}
+						parts = append(parts, c.expr(x.X))
+						return "(" + strings.Join(parts, " ") + ")"
+					}
+				}
+			}
+		}
 		c.fail(e, "selector expression %s", c.t.pr.text(c.fi.Pkg, e))
 	}
 	c.fail(e, "expression %T has no translation", e)
@@ -552,7 +614,7 @@ func (c *fctx) binary(at ast.Node, X ast.Expr, op token.Token, Y ast.Expr, opT t
 		o := map[token.Token]string{token.LSS: "<", token.LEQ: "≤", token.GTR: ">", token.GEQ: "≥"}[op]
 		return "(decide (" + c.expr(X) + " " + o + " " + c.expr(Y) + "))"
 	case token.SHL, token.SHR:
-		fn := map[string]string{"u8<<": "Go.shlU8", "u8>>": "Go.shrU8", "u32<<": "Go.shlU32", "u32>>": "Go.shrU32"}[k+op.String()]
+		fn := map[string]string{"u8<<": "Go.shlU8", "u8>>": "Go.shrU8", "u32<<": "Go.shlU32", "u32>>": "Go.shrU32", "int<<": "Go.shlInt"}[k+op.String()]
 		if fn == "" {
 			c.fail(at, "shift on %s", opT)
 		}
@@ -684,6 +746,25 @@ func (c *fctx) call(x *ast.CallExpr) string {
 					return c.expr(sel.X)
 				}
 			}
+			if o.Pkg().Path() == "strconv" && o.Name() == "Atoi" {
+				return "(Go.strconv_Atoi " + c.expr(x.Args[0]) + ")"
+			}
+			if o.Pkg().Path() == "regexp" && o.Name() == "MatchString" {
+				if sel, ok := ast.Unparen(x.Fun).(*ast.SelectorExpr); ok {
+					if id, ok := ast.Unparen(sel.X).(*ast.Ident); ok {
+						if v, ok := c.info().Uses[id].(*types.Var); ok && v.Parent() == c.fi.Pkg.Types.Scope() {
+							if init, ok := ast.Unparen(varInit(c.fi.Pkg, v)).(*ast.CallExpr); ok && len(init.Args) == 1 {
+								if f, ok := c.fi.Pkg.callee(init).(*types.Func); ok && f.Pkg().Path() == "regexp" && f.Name() == "MustCompile" {
+									if pat, ok := c.fi.Pkg.constString(init.Args[0]); ok {
+										return "(Go.regexp_MatchString " + bytesLit(pat) + " " + c.expr(x.Args[0]) + ")"
+									}
+								}
+							}
+						}
+					}
+				}
+				c.fail(x, "MatchString on something other than a package-level regexp.MustCompile(<constant>)")
+			}
 			// io.LimitReader / bufio.NewScanner: a source is the bytes it delivers, a scanner the input not yet tokenised
 			if o.Pkg().Path() == "io" && o.Name() == "LimitReader" {
 				return "(Go.io_LimitReader " + c.expr(x.Args[0]) + " " + c.asInt(x.Args[1]) + ")"
@@ -717,12 +798,23 @@ func (c *fctx) call(x *ast.CallExpr) string {
 				for _, a := range x.Args {
 					parts = append(parts, c.expr(a))
 				}
-				return "(← " + o.Name() + " " + strings.Join(parts, " ") + ")"
+				return "(← " + absName(o) + " " + strings.Join(parts, " ") + ")"
 			}
-			// another translated function
+			// another translated function (or method)
 			if fi := c.t.pr.Funcs[o]; fi != nil {
 				name := c.t.translate(fi, c, x)
 				var parts []string
+				for _, a := range c.t.absOf[o] {
+					c.useAbstract(a)
+					parts = append(parts, absName(a))
+				}
+				if fi.Decl.Recv != nil {
+					sel, ok := ast.Unparen(x.Fun).(*ast.SelectorExpr)
+					if !ok {
+						c.fail(x, "method call shape")
+					}
+					parts = append(parts, c.expr(sel.X))
+				}
 				psig := o.Type().(*types.Signature).Params()
 				for i, a := range x.Args {
 					if u, ok := ast.Unparen(a).(*ast.UnaryExpr); ok && u.Op == token.AND {
@@ -736,6 +828,15 @@ func (c *fctx) call(x *ast.CallExpr) string {
 				}
 				return "(← " + name + " " + strings.Join(parts, " ") + ")"
 			}
+		}
+	case *types.Var:
+		// a call through a parameter of function type
+		if _, isSig := o.Type().Underlying().(*types.Signature); isSig && o.Parent() != c.fi.Pkg.Types.Scope() {
+			var parts []string
+			for _, a := range x.Args {
+				parts = append(parts, c.expr(a))
+			}
+			return "(← " + c.nameOf(o) + " " + strings.Join(parts, " ") + ")"
 		}
 	}
 	c.fail(x, "call of %s has no translation", c.t.pr.text(c.fi.Pkg, x.Fun))
@@ -751,16 +852,19 @@ func isScanner(t types.Type) bool {
 }
 
 func (c *fctx) isAbstract(o *types.Func) bool {
-	if c.spec == nil {
+	if c.spec == nil || o.Pkg() == nil {
 		return false
 	}
 	for _, a := range c.spec.abstract {
-		if a == o.Name() {
+		if a == o.Pkg().Name()+"."+o.Name() {
 			return true
 		}
 	}
 	return false
 }
+
+// absName: the Lean parameter that stands for an abstract callee
+func absName(o *types.Func) string { return leanIdent(o.Pkg().Name()) + "_" + o.Name() }
 
 func (c *fctx) useAbstract(o *types.Func) {
 	for _, a := range c.abstractUsed {
@@ -781,21 +885,37 @@ func (c *fctx) abstractSig(at ast.Node, o *types.Func) string {
 	for i := 0; i < sig.Results().Len(); i++ {
 		rs = append(rs, c.leanType(at, sig.Results().At(i).Type()))
 	}
-	return fmt.Sprintf("(%s : %s → Go.M %s)", o.Name(), strings.Join(ps, " → "), tupleType(rs))
+	return fmt.Sprintf("(%s : %s → Go.M %s)", absName(o), strings.Join(ps, " → "), tupleType(rs))
 }
 
 // abstractsIn: abstract callees called inside n, in source order
 func (c *fctx) abstractsIn(n ast.Node) []*types.Func {
 	var out []*types.Func
 	ast.Inspect(n, func(n ast.Node) bool {
-		if call, ok := n.(*ast.CallExpr); ok {
-			if f, ok := c.fi.Pkg.callee(call).(*types.Func); ok && c.isAbstract(f) {
-				dup := false
-				for _, g := range out {
-					dup = dup || g == f
+		add := func(f *types.Func) {
+			for _, g := range out {
+				if g == f {
+					return
 				}
-				if !dup {
-					out = append(out, f)
+			}
+			out = append(out, f)
+		}
+		var callee *types.Func
+		switch x := n.(type) {
+		case *ast.CallExpr:
+			callee, _ = c.fi.Pkg.callee(x).(*types.Func)
+		case *ast.SelectorExpr:
+			if sel := c.info().Selections[x]; sel != nil && sel.Kind() == types.MethodVal {
+				callee, _ = sel.Obj().(*types.Func)
+			}
+		}
+		if callee != nil {
+			if c.isAbstract(callee) {
+				add(callee)
+			} else if fi := c.t.pr.Funcs[callee]; fi != nil && callee != c.fi.Obj && c.t.translatable(fi) {
+				c.t.translate(fi, c, n)
+				for _, a := range c.t.absOf[callee] {
+					add(a)
 				}
 			}
 		}
@@ -803,6 +923,9 @@ func (c *fctx) abstractsIn(n ast.Node) []*types.Func {
 	})
 	return out
 }
+
+// translatable: a module function that is listed (or already translated); only those are translated on demand
+func (t *ftr) translatable(fi *FuncInfo) bool { return t.specs[fi.Obj] != nil || t.done[fi.Obj] }
 
 func (c *fctx) tyBinders() string {
 	if c.spec == nil || len(c.spec.opaque) == 0 {
@@ -893,6 +1016,14 @@ func (t *ftr) global(c *fctx, at ast.Node, v *types.Var) string {
 		})
 	}
 	name := leanIdent(p.Name) + "_" + v.Name()
+	if call, ok := ast.Unparen(init).(*ast.CallExpr); ok {
+		if f, ok := p.callee(call).(*types.Func); ok && f.Pkg() != nil && ((f.Pkg().Path() == "errors" && f.Name() == "New") || (f.Pkg().Path() == "fmt" && f.Name() == "Errorf")) {
+			// a sentinel error value: identified by the variable that holds it
+			fmt.Fprintf(&t.out, "/-- package-level sentinel error `var %s` of %s (never assigned) -/\ndef %s : (Option Go.Err) := some (Go.Err.mk %q 0 [])\n\n", v.Name(), p.Path, name, p.Name+"."+v.Name())
+			t.globs[v] = name
+			return name
+		}
+	}
 	// the initialiser is translated in a throw-away context: it must be pure
 	gc := &fctx{t: t, fi: c.fi, names: map[types.Object]string{}, used: map[string]bool{}}
 	if gc.partial(init) {
@@ -906,6 +1037,40 @@ func (t *ftr) global(c *fctx, at ast.Node, v *types.Var) string {
 	fmt.Fprintf(&t.out, "/-- package-level `var %s` of %s (never assigned) -/\ndef %s : %s := %s\n\n", v.Name(), p.Path, name, lt, val)
 	t.globs[v] = name
 	return name
+}
+
+// structType emits (once) a Lean structure for a struct type of the module all of whose fields translate.
+// Values of the type are only ever READ by translated code (field assignment is refused), so a pointer to
+// the struct and the struct are the same thing here.
+func (t *ftr) structType(nt *types.Named) (string, bool) {
+	if n, ok := t.structs[nt]; ok {
+		return n, n != ""
+	}
+	if nt.Obj().Pkg() == nil || t.pr.ByPath[nt.Obj().Pkg().Path()] == nil {
+		return "", false
+	}
+	st := nt.Underlying().(*types.Struct)
+	name := leanIdent(nt.Obj().Pkg().Name()) + "_" + nt.Obj().Name()
+	t.structs[nt] = "" // guards against recursive types
+	var fields []string
+	for i := 0; i < st.NumFields(); i++ {
+		f := st.Field(i)
+		ft, ok := leanTypeOf(f.Type())
+		if !ok {
+			return "", false
+		}
+		fields = append(fields, fmt.Sprintf("  %s : %s", fieldName(f.Name()), ft))
+	}
+	t.structs[nt] = name
+	fmt.Fprintf(&t.out, "/-- `type %s struct` of %s (read-only in translated code) -/\nstructure %s where\n%s\n\n", nt.Obj().Name(), nt.Obj().Pkg().Path(), name, strings.Join(fields, "\n"))
+	return name, true
+}
+
+func fieldName(n string) string {
+	if leanReserved[n] || n == "Type" {
+		return n + "_"
+	}
+	return n
 }
 
 func leanIdent(s string) string {
@@ -1568,7 +1733,7 @@ func (c *fctx) loop(e *emitter, ind int, s ast.Stmt) {
 	for _, f := range c.abstractsIn(s) {
 		c.useAbstract(f)
 		sig = append(sig, c.abstractSig(s, f))
-		roArgs = append(roArgs, f.Name())
+		roArgs = append(roArgs, absName(f))
 	}
 	for _, v := range ro {
 		sig = append(sig, fmt.Sprintf("(%s : %s)", c.nameOf(v), c.leanType(s, v.Type())))
@@ -1709,6 +1874,9 @@ func loopHead(c *fctx, s ast.Stmt) string {
 // translate emits fi (once) and returns its Lean name.
 func (t *ftr) translate(fi *FuncInfo, from *fctx, at ast.Node) string {
 	name := leanIdent(fi.Pkg.Name) + "_" + fi.Decl.Name.Name
+	if fi.Decl.Recv != nil {
+		name = leanIdent(fi.Pkg.Name) + "_" + recvTypeNameOf(fi) + "_" + fi.Decl.Name.Name
+	}
 	if t.done[fi.Obj] {
 		return name
 	}
@@ -1716,7 +1884,7 @@ func (t *ftr) translate(fi *FuncInfo, from *fctx, at ast.Node) string {
 		from.fail(at, "recursive call of %s", fi.Qual())
 	}
 	if fi.Decl.Recv != nil {
-		from.fail(at, "method %s", fi.Qual())
+		name = leanIdent(fi.Pkg.Name) + "_" + recvTypeNameOf(fi) + "_" + fi.Decl.Name.Name
 	}
 	spec := t.specs[fi.Obj]
 	if spec == nil && from != nil {
@@ -1738,13 +1906,21 @@ func (t *ftr) translate(fi *FuncInfo, from *fctx, at ast.Node) string {
 	var params []string
 	var shadow []string
 	asg := c.assignedIn(fi.Decl.Body)
+	if rv := sig.Recv(); rv != nil {
+		if asg[rv] {
+			c.fail(fi.Decl, "the receiver is assigned")
+		}
+		params = append(params, fmt.Sprintf("(%s : %s)", c.nameOf(rv), c.leanType(fi.Decl, rv.Type())))
+	}
 	for i := 0; i < sig.Params().Len(); i++ {
 		p := sig.Params().At(i)
 		if ptr, ok := p.Type().Underlying().(*types.Pointer); ok {
-			if _, ok := ptr.Elem().Underlying().(*types.Array); !ok {
+			_, isArr := ptr.Elem().Underlying().(*types.Array)
+			_, isStruct := ptr.Elem().Underlying().(*types.Struct)
+			if !isArr && !isStruct {
 				c.fail(fi.Decl, "pointer parameter %s", p.Name())
 			}
-			if asg[p] {
+			if isArr && asg[p] {
 				c.inouts = append(c.inouts, p)
 			}
 		}
@@ -1792,15 +1968,29 @@ func (t *ftr) translate(fi *FuncInfo, from *fctx, at ast.Node) string {
 	params = append(absParams, params...)
 	fmt.Fprintf(&t.out, " -/\ndef %s %s%s : Go.M %s := do\n%s\n\n", name, c.tyBinders(), strings.Join(params, " "), c.retTy, strings.Join(e.lines, "\n"))
 	fmt.Fprintf(&t.out, "def %s_errSites : Nat := %d\ndef %s_panicSites : Nat := %d\n\n", name, c.errN, name, c.panicN)
+	t.absOf[fi.Obj] = c.abstractUsed
 	t.done[fi.Obj] = true
 	delete(t.busy, fi.Obj)
 	t.names = append(t.names, name)
 	return name
 }
 
+func recvTypeNameOf(fi *FuncInfo) string {
+	t := fi.Decl.Recv.List[0].Type
+	if s, ok := t.(*ast.StarExpr); ok {
+		t = s.X
+	}
+	if id, ok := t.(*ast.Ident); ok {
+		return id.Name
+	}
+	return "T"
+}
+
 func collectFuncs(pr *Prog, facts map[string]interface{}) *leanFile {
 	f := newLean("Funcs", "Selected small pure functions of the repository, TRANSLATED statement by statement (extract/funcs.go); semantics: AgeModel/GoSem.lean.")
-	t := &ftr{pr: pr, specs: map[*types.Func]*funcSpec{}, done: map[*types.Func]bool{}, busy: map[*types.Func]bool{}, globs: map[types.Object]string{}}
+	t := &ftr{pr: pr, specs: map[*types.Func]*funcSpec{}, done: map[*types.Func]bool{}, busy: map[*types.Func]bool{}, globs: map[types.Object]string{},
+		absOf: map[*types.Func][]*types.Func{}, structs: map[*types.Named]string{}}
+	curFtr = t
 	var failed []string
 	for i := range funcSpecs {
 		sp := &funcSpecs[i]
